@@ -150,8 +150,9 @@ def corpus_histories():
     return [
         # (runs with an identifier pool) an object is detached and collected, an unrelated entity is removed through the
         # workspace, then an object with the identifier of the detached one is created again, with other content
-        [op("create_object", 0, 0, 1, uid=0), op("add_data", 0, 0, 2), op("create_object", 0, 0, 2), op("remove_parent", 0, 0, 0), op("gc"),
-         op("remove_ws", 0, 0, 0), op("gc"), op("create_object", 0, 0, 3, uid=0), op("add_data", 0, 0, 4), op("reopen")],
+        # (c = 8: the removals do not read the workspace listings afterwards)
+        [op("create_object", 0, 0, 1, uid=0), op("add_data", 0, 0, 2), op("create_object", 0, 0, 2), op("remove_parent", 0, 0, 8), op("gc"),
+         op("remove_ws", 0, 0, 8), op("gc"), op("create_object", 0, 0, 3, uid=0), op("add_data", 0, 0, 4), op("reopen")],
         # a small correction of stored values (within any "close enough" tolerance), written and re-read
         [op("create_object", 0, 0, 1), op("add_data", 0, 0, 2), op("set_values", 0, 0, 1), op("reopen"), op("set_values", 0, 3, 2), op("reopen")],
         # comments of a drillhole group, removed through the workspace and through the parent
